@@ -39,6 +39,7 @@ PKGS = [("internal/structures", "structures"), ("internal/rebalancing", "rebalan
 LT_DIR = os.path.join(vlib.VERIF, "tools", "locktable")
 CONFINED = os.path.join(vlib.VERIF, "tools", "c18_confined.json")
 PROPOSED = os.path.join(vlib.VERIF, "notes", "c18-known-findings-proposed.json")
+SHAPES = os.path.join(vlib.VERIF, "tools", "c18_protocol_shape.json")
 # a test that kills the test binary on a defective tree runs in its own process anyway (one process per test)
 
 
@@ -245,7 +246,29 @@ def static_half(ctx, viol, known, cov, ks):
     cov["package_level_vars"] = dict(total=len(pvs), by_class={c: sum(1 for x in pvs if x["class"] == c) for c in ("sync", "error-sentinel", "data")},
                                      data_vars=[dict(name=x["pkg"] + "." + x["name"], type=x["type"], writes_outside_init=len(x["writes_outside_init"]), reads=x["reads"])
                                                 for x in pvs if x["class"] == "data"])
-    return dict(static_bad=static_bad, pv_bad=pv_bad, table_v=gen_text, entries=len(entries))
+    # protocol skeletons vs the two transcriptions of Model/Lifecycle.v
+    shape_bad = []
+    golden = json.load(open(SHAPES))["groups"]
+    cov["side_obligations"] += len(golden)
+    variants = {}
+    for g, spec in sorted(golden.items()):
+        cur = {f: data.get("protocols", {}).get(f) for f in spec["functions"]}
+        if cur == spec["patched"]:
+            variants[g] = "patched (Lifecycle fixed=true: the positive theorems apply)"
+            cov["side_discharged"] += 1
+        elif cur == spec["as_found"]:
+            variants[g] = "as found (Lifecycle fixed=false: refuted)"
+            k = next((x for x in ks if x.get("id") == spec["known_finding_when_as_found"]), None)
+            if k:
+                known.append("%s: Start/Stop/loop of the %s worker have the shape that Model/Lifecycle.v refutes [protocol skeleton]" % (k["id"], g))
+            else:
+                shape_bad.append(dict(group=g, what="the %s worker's Start/Stop/loop have the refuted shape (Lifecycle fixed=false)" % g, nofail=False))
+        else:
+            variants[g] = "unknown"
+            diff = {f: dict(current=cur[f], patched=spec["patched"][f]) for f in spec["functions"] if cur[f] != spec["patched"][f]}
+            shape_bad.append(dict(group=g, what="the synchronisation skeleton of %s no longer matches either transcription in Model/Lifecycle.v" % ", ".join(sorted(diff)), diff=diff, nofail=True))
+    cov["protocol_shapes"] = variants
+    return dict(static_bad=static_bad, pv_bad=pv_bad, shape_bad=shape_bad, table_v=gen_text, entries=len(entries))
 
 
 # ----------------------------------------------------------------------------- dynamic half
@@ -493,6 +516,14 @@ def run(ctx):
                 viol.append(dict(what="no common lock / confinement for %s: unlocked %s" % (rec["location"], "; ".join(rec["unlocked_sites"][:3])),
                                  nofail=True, correspondence="locktable_ok (Gen/LockTable.v regenerated from the source) = true, theorem C18_table_sound",
                                  case=rec))
+        for rec in st["shape_bad"]:
+            hit = next((x for x in dyn if x.get("failure_class") in ("panic", "stop-timeout", "goroutine-leak")), None)
+            if hit:
+                hit["protocol_shape"] = rec
+                hit["what"] += "; " + rec["what"]
+            else:
+                viol.append(dict(what=rec["what"], nofail=True, case=rec,
+                                 correspondence="tools/c18_protocol_shape.json (golden skeletons of the code Model/Lifecycle.v transcribes) vs tools/locktable on the current source; theorems C18_inc_*, C18_smart_*"))
         for rec in st["pv_bad"]:
             viol.append(dict(what="package-level variable %s is written outside init (%s)" % (rec["variable"], rec["writes"][0]["func"]),
                              nofail=True, correspondence="package-level state of the library is immutable after init", case=rec))
